@@ -4,13 +4,13 @@ package main
 
 import (
 	"fmt"
-	"math/rand"
-	"sync"
 	"go/types"
+	"math/rand"
 	"os"
 	"path/filepath"
 	"sort"
 	"strings"
+	"sync"
 
 	"golang.org/x/tools/go/packages"
 	"golang.org/x/tools/go/ssa"
@@ -336,4 +336,19 @@ func (m *Machine) newError(g *G, msg value) value {
 	ep := m.p.pkgs["errors"]
 	fn := ep.Func("New")
 	return m.callSSA(nil, g, 0, fn, []value{msg}, nil)
+}
+
+// findMethod returns the exported method name of type t, or nil.
+func (p *Program) findMethod(t types.Type, name string) *ssa.Function {
+	if t == nil {
+		return nil
+	}
+	if _, ok := t.Underlying().(*types.Interface); ok {
+		return nil
+	}
+	sel := p.prog.MethodSets.MethodSet(t).Lookup(nil, name)
+	if sel == nil {
+		return nil
+	}
+	return p.prog.MethodValue(sel)
 }
